@@ -334,6 +334,11 @@ func runCrashOnce(t *testing.T, p *Plan) *simcore.Result {
 func diskLogHash(kvLog []simdisk.KVOp, events []simos.Event, root string) uint64 {
 	h := simcore.NewHash()
 	for _, op := range kvLog {
+		if string(op.Key) == "TrieJournal" {
+			// the journal serialises maps in iteration order: only its size is stable
+			h = h.U64(uint64(op.Kind)).Bytes(op.Key).U64(uint64(len(op.Val)))
+			continue
+		}
 		h = h.U64(uint64(op.Kind)).Bytes(op.Key).Bytes(op.Val)
 		if op.Kind == simdisk.OpBatch {
 			var items []string
@@ -352,6 +357,11 @@ func diskLogHash(kvLog []simdisk.KVOp, events []simos.Event, root string) uint64
 		x, ok := per[p]
 		if !ok {
 			x = simcore.NewHash()
+		}
+		if strings.HasPrefix(p, "/journal/") {
+			// journal file: written in map iteration order, only sizes are stable
+			per[p] = x + simcore.Hash64(uint64(e.Kind)*1000003+uint64(len(e.Data)))
+			continue
 		}
 		per[p] = x.U64(uint64(e.Kind)).U64(uint64(e.Off)).Bytes(e.Data)
 	}
